@@ -18,10 +18,10 @@ _pre, _mk = _h._pre, _h._mk
 
 
 def _routing(h0: int, a0: int, h1: int, a1: int, h2: int, a2: int, s0: int, r0: int, d0: int,
-             s1: int, r1: int, d1: int, s2: int, r2: int, d2: int) -> bool:
+             s1: int, r1: int, d1: int, s2: int, r2: int, d2: int, w0: int, w1: int, w2: int) -> bool:
     """
-    pre: _pre(h0, a0, h1, a1, h2, a2, s0, r0, d0, s1, r1, d1, s2, r2, d2)
+    pre: _pre(h0, a0, h1, a1, h2, a2, s0, r0, d0, s1, r1, d1, s2, r2, d2, w0, w1, w2)
     post: _
     """
-    hist, sends = _mk(h0, a0, h1, a1, h2, a2, s0, r0, d0, s1, r1, d1, s2, r2, d2)
+    hist, sends = _mk(h0, a0, h1, a1, h2, a2, s0, r0, d0, s1, r1, d1, s2, r2, d2, w0, w1, w2)
     return _h.run_script(hist, sends) is None
